@@ -1,8 +1,219 @@
 import Flatland.JsonUtil
+import Flatland.C06
+import Flatland.Spec.C06
 open Lean Flatland.J
 namespace Flatland.Run.C06
+open Flatland.C06
 
-/-- JSON case in, JSON observation out (stub until the model of C06 is written). -/
-def run (_j : Json) : Except String Json := .error "model runner for C06 not implemented yet"
+def parseKind (s : String) : Except String Kind :=
+  match s with
+  | "String" | "Integer" | "Boolean" => pure .scalar
+  | "Enum" => pure .enum
+  | "Ref" => pure .ref
+  | "Dict" => pure .dict
+  | "List" | "Array" => pure .seq
+  | "DateYYYYMMDD" => pure .compound
+  | s => throw s!"bad base {s}"
+
+def attrsOf : Kind → List Attr
+  | .scalar => [.name, .optional, .default, .validators]
+  | .enum => [.name, .optional, .default, .validators, .validValues]
+  | .ref => [.name, .optional, .default, .validators, .targetPath]
+  | .dict => [.name, .optional, .default, .validators, .descentValidators, .fieldSchema]
+  | .seq => [.name, .optional, .default, .validators, .descentValidators, .memberSchema]
+  | .compound => [.name, .optional, .default, .validators, .descentValidators, .fieldSchema]
+
+def attrName : Attr → String
+  | .name => "name" | .optional => "optional" | .default => "default" | .validators => "validators"
+  | .descentValidators => "descent_validators" | .memberSchema => "member_schema"
+  | .fieldSchema => "field_schema" | .validValues => "valid_values" | .targetPath => "target_path"
+
+def parseKwName (s : String) : KwName :=
+  match s with
+  | "name" => .attr .name | "optional" => .attr .optional | "default" => .attr .default
+  | "validators" => .attr .validators | "descent_validators" => .attr .descentValidators
+  | "properties" => .properties
+  | _ => .bogus
+
+def parseKwVal (n : KwName) (j : Json) : Except String KwVal :=
+  match n, j with
+  | .properties, j => do
+    let ps ← (← arr j).mapM (fun p => do
+      match (← arr p) with
+      | [k, v] => pure ((← chars k), (← int v))
+      | _ => throw "bad pair")
+    return .pairs ps
+  | .attr .validators, j | .attr .descentValidators, j => do return .labels (← (← arr j).mapM nat)
+  | _, .null => pure .none
+  | _, .bool b => pure (.bool b)
+  | _, .str s => pure (.str s.toList)
+  | _, .num _ => do return .int (← j.getInt?)
+  | _, _ => pure .foreign
+
+def parseKw (j : Json) : Except String (List (KwName × KwVal)) := do
+  (← arr j).mapM (fun p => do
+    match (← arr p) with
+    | [a, v] =>
+      let n := parseKwName (← str a)
+      -- the value given to an unknown keyword is irrelevant
+      let v ← if n == .bogus then pure KwVal.foreign else parseKwVal n v
+      pure (n, v)
+    | _ => throw "bad kw")
+
+def parseStep (j : Json) : Except String Step := do
+  let c ← nfld j "c"
+  match (← sfld j "t") with
+  | "named" => return .named c (← optOf chars (← fld j "name"))
+  | "using" => return .using c (← parseKw (← fld j "kw"))
+  | "validated_by" => return .validatedBy false c (← (← afld j "vs").mapM nat)
+  | "descent_validated_by" => return .validatedBy true c (← (← afld j "vs").mapM nat)
+  | "including_validators" =>
+    return .includingValidators false c (← (← afld j "vs").mapM nat) (← optOf int (← fld j "pos"))
+  | "including_descent_validators" =>
+    return .includingValidators true c (← (← afld j "vs").mapM nat) (← optOf int (← fld j "pos"))
+  | "with_properties" =>
+    let ps ← (← afld j "pairs").mapM (fun p => do
+      match (← arr p) with
+      | [k, v] => pure ((← chars k), (← int v))
+      | _ => throw "bad pair")
+    return .withProperties c ps
+  | "of" => return .of c (← (← afld j "members").mapM nat)
+  | "valued" => return .valued c (← (← afld j "values").mapM chars)
+  | "to" => return .to c (← cfld j "path")
+  | "inst" => return .inst c (← parseKw (← fld j "kw"))
+  | s => throw s!"bad step {s}"
+
+def ofItem : Item → Json
+  | .label n => ofNat n
+  | .cls c => ofNat c
+  | .str s => ofChars s
+  | .gen name fmt opt => obj [("gen", Json.bool true), ("name", ofChars name), ("optional", Json.bool opt),
+                              ("format", ofChars fmt)]
+
+def ofAtom : Val → Json
+  | .none => Json.null
+  | .bool b => Json.bool b
+  | .int i => ofInt i
+  | .str s => ofChars s
+  | .cls c => ofNat c
+  | _ => obj [("<foreign>", Json.str "?")]
+
+/-- canonical value of an attribute, as `Real.cval` computes it -/
+def cval (σ : State) (a : Attr) (v : Option Val) : Json :=
+  match a with
+  | .validators | .descentValidators | .fieldSchema | .validValues =>
+    match v with
+    | some (.list r) | some (.tuple r) => ofList ofItem (σ.items r)
+    | _ => Json.arr #[]
+  | .memberSchema =>
+    match v with
+    | some (.cls m) => ofNat m
+    | some (.anonDict r) => obj [("anon_dict", ofList ofItem (σ.items r))]
+    | _ => Json.null
+  | .optional => match v with | some (.bool b) => Json.bool b | _ => Json.bool false
+  | _ => match v with | some v => ofAtom v | none => Json.null
+
+def snapshotCls (σ : State) (c : ClassId) (ids : List (Ref × Nat)) : Json × List (Ref × Nat) := Id.run do
+  let mut ids := ids
+  let mut fields : List (String × Json) := []
+  let mut idl : List (String × Json) := []
+  let parent := match σ.mroOf c with | _ :: p :: _ => ofNat p | _ => Json.null
+  fields := [("parent", parent)]
+  for a in attrsOf (σ.kindOf c) do
+    let v := σ.lookup c a
+    fields := fields ++ [(attrName a, cval σ a v)]
+    if a == .validators || a == .descentValidators || a == .fieldSchema then
+      match v with
+      | some (.list r) =>
+        let lab := match assoc ids r with
+          | some l => l
+          | none => ids.length
+        if (assoc ids r).isNone then ids := ids ++ [(r, lab)]
+        idl := idl ++ [(attrName a, ofNat lab)]
+      | _ => pure ()
+  let props := ofList (fun (kv : C06.Str × Int) => Json.arr #[ofChars kv.1, ofInt kv.2]) (propsOf σ c)
+  fields := fields ++ [("properties", props), ("ids", obj idl)]
+  return (obj fields, ids)
+
+def snapshotAll (σ : State) : List Json := Id.run do
+  let mut ids : List (Ref × Nat) := []
+  let mut out : List Json := []
+  for c in List.range σ.classes.length do
+    let (j, ids') := snapshotCls σ c ids
+    ids := ids'
+    out := out ++ [j]
+  return out
+
+def resName : Res → String
+  | .ok => "ok" | .typeError => "TypeError" | .attributeError => "AttributeError"
+  | .assertionError => "AssertionError" | .badCase => "BadCase"
+
+def instSnapshot (σ : State) (c : ClassId) (kw : List (KwName × KwVal)) : Json :=
+  if σ.kindOf c == .compound then obj [] else
+  obj (kw.filterMap (fun p => match p.1, p.2 with
+    | .attr a, .labels ls => some (attrName a, ofList ofNat ls)
+    | .attr a, v => some (attrName a, cval σ a (some (atomOf v)))
+    | .properties, .pairs ps =>
+      some ("properties", ofList (fun (kv : C06.Str × Int) => Json.arr #[ofChars kv.1, ofInt kv.2])
+        (ps.foldl (fun acc kv => assocSet acc kv.1 kv.2) []))
+    | _, _ => none))
+
+def runChain (j : Json) : Except String Json := do
+  let kind ← parseKind (← sfld j "base")
+  let steps ← (← afld j "steps").mapM parseStep
+  let mut σ := initState kind []
+  let mut prev := snapshotAll σ
+  let start := prev
+  let mut out : Array Json := #[]
+  let mut agrees := true
+  for s in steps do
+    let n := σ.classes.length
+    let (σ', r) := step σ s
+    let now := snapshotAll σ'
+    let changed := (List.range n).filterMap (fun i =>
+      match prev[i]?, now[i]? with
+      | some a, some b => if a == b then none else some (Json.arr #[ofNat i, b])
+      | _, _ => none)
+    let inst := match s, r with
+      | .inst c kw, .ok => instSnapshot σ c kw
+      | _, _ => Json.null
+    out := out.push (obj [("r", Json.str (resName r)), ("new", Json.arr (now.drop n).toArray),
+      ("changed", Json.arr changed.toArray), ("inst", inst)])
+    agrees := agrees && Spec.frameHolds σ σ' s && Spec.wfB σ'
+    σ := σ'
+    prev := now
+  return obj [("start", Json.arr start.toArray), ("steps", Json.arr out), ("spec_agrees", Json.bool agrees)]
+
+def parseField (j : Json) : Except String Field := do
+  match (← arr j) with
+  | [n, t] => return (← optOf chars n, ← chars t)
+  | _ => throw "bad field"
+
+def runSchema (j : Json) : Except String Json := do
+  let decls ← afld j "decls"
+  let mut fieldsOf : List (List Field) := []
+  let mut out : Array Json := #[]
+  let mut agrees := true
+  for d in decls do
+    let bases ← (← afld d "bases").mapM nat
+    let explicit ← match fldD d "fs" Json.null with
+      | .null => pure []
+      | fs => (← arr fs).mapM parseField
+    let declared ← (← afld d "attrs").mapM (fun a => do
+      match (← arr a) with
+      | [attr, tag, _] => pure ((some (← chars attr), ← chars tag) : Field)
+      | _ => throw "bad attr")
+    let baseFields := bases.map (fun b => (fieldsOf[b]?).getD [])
+    let fs := metaSchemaNew baseFields explicit declared
+    agrees := agrees && Spec.schemaFieldsOK baseFields explicit declared fs
+    fieldsOf := fieldsOf ++ [fs]
+    out := out.push (ofList (fun (f : Field) => Json.arr #[ofOpt ofChars f.1, ofChars f.2]) fs)
+  return obj [("schemas", Json.arr out), ("spec_agrees", Json.bool agrees)]
+
+def run (j : Json) : Except String Json := do
+  match (← sfld j "kind") with
+  | "chain" => runChain j
+  | "schema" => runSchema j
+  | s => throw s!"bad kind {s}"
 
 end Flatland.Run.C06
